@@ -762,6 +762,14 @@ class ExprMixin:
                 return V(CLS, m.classes[attr])
             if attr in m.imports:
                 return self.resolve_dotted(m.imports[attr])
+            if attr in m.globals:
+                # a module-level alias of an imported function or class (`taglink = linker.taglink`)
+                d = _dotted(m.globals[attr])
+                if d is not None and d.split('.')[0] in m.imports:
+                    parts = d.split('.')
+                    r = self.resolve_dotted('.'.join([m.imports[parts[0]]] + parts[1:]))
+                    if r.ty in (FUN, CLS):
+                        return r
             if m.relpath.endswith('__init__.py'):
                 # a submodule of a package (bound on the package by `import pkg.sub`)
                 sub = self.src.by_dotted.get(m.relpath[:-len('/__init__.py')].replace('/', '.') + '.' + attr)
@@ -852,6 +860,14 @@ class ExprMixin:
             # methods of a builtin sequence base class (deque): modelled on the __items__ view
             if self.field_ty(ty.cls, '__items__') is not None:
                 return V(BOUND, Bound(r, attr, None, ci))
+            # narrowing: the path established isinstance(r, Sub) for a subclass that has the attribute
+            if ci is not None and not self.spec_mode:
+                for sub in self.src.subclasses_of(ty.cls):
+                    c2, m2 = self.src.lookup_method(sub, attr)
+                    has_field = self.field_ty(sub.name, attr) is not None
+                    if (m2 is None and not has_field) or not self.entails(st, self.isinstance_term(r.t, sub.name)):
+                        continue
+                    return self.get_attr(V(TRef(sub.name, ty.nullable), r.t), attr, st, exits, e)
             raise Unsupported(f'attribute {ty.cls}.{attr}: not a declared field or method')
         if isinstance(ty, TObj) and f'<{ty.name}>.@{attr}' in self.reg.external:
             return self.ext_attribute(r, f'<{ty.name}>.@{attr}', st, exits, e)
